@@ -54,7 +54,7 @@ var baseWeights = map[string]int{
 	"propose": 8, "proposebatch": 1, "proposeconf": 2, "transfer": 1, "readindex": 2,
 	"campaign": 1, "forget": 1, "unreachable": 1, "reportsnap": 3, "compact": 1,
 	"crash": 1, "restart": 4, "isolate": 1, "blocklink": 1, "heal": 2,
-	"duprecent": 2, "diverge": 1, "proposemixed": 1, "burst": 3,
+	"duprecent": 2, "diverge": 1, "proposemixed": 1, "burst": 3, "slowdisk": 2,
 }
 
 func mkProfile(name string, over map[string]int, f func(p *Profile)) *Profile {
@@ -343,6 +343,26 @@ func (s *Sim) RandomAction(p *Profile) {
 		}
 	}
 	add("duprecent", len(recent) > 0, func() { s.Redeliver(recent[d.Int(0, len(recent)-1, "recent")]) })
+	var asyncUp []*Node
+	for _, n := range up {
+		if n.Opts.Async {
+			asyncUp = append(asyncUp, n)
+		}
+	}
+	add("slowdisk", len(asyncUp) > 0, func() {
+		n := pickNode(asyncUp, "node")
+		which := d.Int(0, 2, "which")
+		if n.SlowAppend || n.SlowApply {
+			// recover (more likely than stalling further)
+			n.SlowAppend, n.SlowApply = false, false
+			s.begin("DiskRecovers(%d)", n.ID)
+			return
+		}
+		n.SlowAppend = which != 1
+		n.SlowApply = which != 0
+		s.begin("DiskStalls(%d append=%v apply=%v)", n.ID, n.SlowAppend, n.SlowApply)
+		s.Stats.inc("async.stalled")
+	})
 	add("burst", len(deliverable) > 0, func() { s.Burst(s.Nodes[s.Net.Pool[deliverable[d.Int(0, len(deliverable)-1, "flight")]].To]) })
 	add("diverge", len(up) >= 3, func() { s.Diverge(p) })
 	add("proposemixed", len(up) > 0, func() { s.proposeMixed(s.proposerNode(up), p) })
